@@ -42,6 +42,8 @@ func genCase(t *rapid.T) Case {
 	so := gen.SchemaOpts{Filters: true, MinProps: 1, Flat: rapid.Bool().Draw(t, "flat"), Vamana: rapid.Bool().Draw(t, "vamana"), Text: rapid.Bool().Draw(t, "text"), MaxDim: 4, Quantizer: true}
 	ho := gen.HistoryOpts{MaxSteps: 8, MaxBatch: 8, PoolSize: rapid.SampledFrom([]int{8, 20}).Draw(t, "pool"),
 		AllowRejected: true, AllowOversize: true, Reopen: true, Evict: true, ExtraFields: true}
+	// the same id more than once in one update batch (merged in order; the indices must see the net change)
+	ho.AllowDupUpdate = rapid.IntRange(0, 3).Draw(t, "dupUpdate") == 0
 	if vt.Thorough() {
 		ho.MaxSteps = 12
 	}
